@@ -158,6 +158,8 @@ pub enum Fault {
     ReplacePoint { elem: usize, with: PointRepl },
     DropRound,
     AddRound,
+    /// append this many extra rounds (huge round counts: 63/64/65/200)
+    AddRounds(usize),
     /// change the extension tag by ±1; `repair` also adds/removes a d1 element so the length fits
     RetagExtension { up: bool, repair: bool },
     Truncate(usize),
@@ -180,6 +182,7 @@ impl Fault {
             Fault::ReplacePoint { .. } => "replace_point",
             Fault::DropRound => "drop_round",
             Fault::AddRound => "add_round",
+            Fault::AddRounds(_) => "add_many_rounds",
             Fault::RetagExtension { .. } => "retag_extension",
             Fault::Truncate(_) => "truncate",
             Fault::Extend(_) => "extend",
@@ -218,6 +221,13 @@ pub fn enumerate_faults<G: Group>(msg: &Msg<G>, rng: &mut SimRng) -> Vec<Fault> 
     }
     v.push(Fault::DropRound);
     v.push(Fault::AddRound);
+    if let Some(r) = ProofParts::parse(&msg.proof).map(|p| p.lr.len()) {
+        for target in [63usize, 64, 65, 200] {
+            if target > r {
+                v.push(Fault::AddRounds(target - r));
+            }
+        }
+    }
     for up in [true, false] {
         for repair in [true, false] {
             v.push(Fault::RetagExtension { up, repair });
@@ -323,6 +333,13 @@ pub fn apply_fault<G: Group>(msg: &Msg<G>, f: &Fault, rng: &mut SimRng) -> Optio
         Fault::DropRound => {
             let mut p = parts?;
             p.lr.pop()?;
+            out.proof = p.to_bytes();
+        },
+        Fault::AddRounds(n) => {
+            let mut p = parts?;
+            for _ in 0..*n {
+                p.lr.push((G::enc(&G::random_point(rng)), G::enc(&G::random_point(rng))));
+            }
             out.proof = p.to_bytes();
         },
         Fault::AddRound => {
